@@ -173,8 +173,9 @@ class Totals:
             self.samples.extend(r["samples"][: 5 - len(self.samples)])
 
 
-def run_items(ctx, items, evaluate, chunk=64, totals=None):
-    """Evaluate all items (a finite iterator) with `evaluate` on ctx.nworkers forked workers."""
+def run_items(ctx, items, evaluate, chunk=64, totals=None, singles=()):
+    """Evaluate all items (a finite iterator) with `evaluate` on ctx.nworkers forked workers.  ``singles``: items that are
+    whole explorations themselves; each is a work unit of its own, handed out before the chunks of ``items``."""
     global _EVAL
     _EVAL = evaluate
     tot = totals or Totals()
@@ -187,6 +188,10 @@ def run_items(ctx, items, evaluate, chunk=64, totals=None):
         except BaseException as e:  # noqa
             gen_errors.append(e)
     work = chunks(guarded(items), chunk)
+    if singles:
+        singles = list(singles)
+        # index 0 = "re-evaluate for the determinism self-check": only the last (by convention the smallest) single
+        work = itertools.chain(((0 if i == len(singles) - 1 else 1, [it]) for i, it in enumerate(singles)), work)
     if ctx.nworkers <= 1:
         for w in work:
             tot.merge(_eval_chunk(w))
